@@ -68,7 +68,8 @@ func floatDomain(t string) []uint64 {
 var charDomain = []uint64{'A', '0', 0x7f}
 
 func dynStrDomain() []string {
-	return []string{"hello", "", "a", "é€😀", strings.Repeat("x", 255), strings.Repeat("y", 256)}
+	// (white space only, leading/trailing blanks: a dynamic string is its bytes, nothing is trimmed or "blank")
+	return []string{"hello", "", "a", "é€😀", strings.Repeat("x", 255), strings.Repeat("y", 256), " ", "\t ", " a "}
 }
 
 // fixStrDomain: values that fit in n bytes and neither start nor end with the pad character on the
